@@ -73,9 +73,11 @@ StepRefines(tr, st) ==
   st.kind # "window" \/ (st.hooked /\ ImplFetch(st) = AlgWindow(tr.segs, tr.il, st.off, st.len).fetch)
 
 TInit == tid \in DOMAIN Traces /\ l = 1 /\ cache = <<>> /\ ref = TRUE
+\* a step marked `fresh' is served by a file opened for it alone: nothing is cached
+Prev(st) == IF st.fresh THEN <<>> ELSE cache
 TStep == /\ l <= Len(Tr.steps)
-         /\ StepOK(Tr, Tr.steps[l], cache)
-         /\ cache' = CachedAfter(Tr, Tr.steps[l], cache)          \* the channel's one-chunk cache
+         /\ StepOK(Tr, Tr.steps[l], Prev(Tr.steps[l]))
+         /\ cache' = CachedAfter(Tr, Tr.steps[l], Prev(Tr.steps[l]))          \* the channel's one-chunk cache
          /\ ref' = (ref /\ StepRefines(Tr, Tr.steps[l]))
          /\ l' = l + 1 /\ UNCHANGED tid
 TSpec == TInit /\ [][TStep]_tvars
